@@ -122,7 +122,7 @@ def concrete_playback_batch(crate_dir, harnesses, prop, env_extra=None, extra=No
     shutil.copytree(crate_dir, scratch, ignore=shutil.ignore_patterns("target", ".cache"))
     fix_relative_paths(os.path.join(scratch, "Cargo.toml"), crate_dir)
     env = C.env_offline(env_extra)
-    tdir = os.path.join(C.CACHE, "kani-playback-" + os.path.basename(crate_dir))
+    tdir = C.keyed_target_dir("kani-playback-" + os.path.basename(crate_dir), keep=2)
     base_cmd = ["cargo", "kani", "--target-dir", tdir, "--output-format", "terse", "--exact", "-Z", "concrete-playback",
                 "--concrete-playback=print"] + (extra or [])
 
